@@ -188,6 +188,11 @@ m("C18-g", "C18", "libwallet/src/internal/updater.rs", "\t\tif height < last_con
 m("C10-g", "C10", "libwallet/src/slatepack/types.rs", "\t\treader.read_to_end(&mut decrypted)?;", "\t\tlet _ = reader.read_to_end(&mut decrypted);", "C10.R3")
 m("C19-f", "C19", "libwallet/src/internal/updater.rs", "\t\t\tRetrieveTxQuerySortOrder::Desc => return_txs.reverse(),", "\t\t\tRetrieveTxQuerySortOrder::Desc => {}", "C19.R1")
 
+m("C02-h", "C02", "libwallet/src/slate.rs", "\t\tif let Err(e) = final_tx.validate(Weighting::AsTransaction) {", "\t\tif let Err(e) = self.tx_or_err()?.validate(Weighting::AsTransaction) {", "C02.R1")
+m("C02-i", "C02", "libwallet/src/slate.rs", "\t\tfinal_tx.kernels()[0].verify()?;", "\t\tself.tx_or_err()?.kernels()[0].verify()?;", "C02.R1")
+
+m("C12-h", "C12", "libwallet/src/internal/selection.rs", "\tlet keychain = wallet.keychain(keychain_mask)?;\n\n\tlet tx_entry = {", "\tlet keychain = wallet.keychain(keychain_mask)?;\n\tdebug!(\"locking outputs with context {:?}\", context);\n\n\tlet tx_entry = {", "C12.R9")
+
 
 def for_property(prop):
     return [x for x in M if x["property"] == prop]
